@@ -192,12 +192,17 @@ def run(ctx):
             n = [1, 2, 3, 4][j % 4] if per_fmt >= 4 else gen.choice([2, 3, 4])
             for eol in ("\n", "\r\n"):
                 for fnl in (True, False):
-                    style = {"eol": eol, "final_newline": fnl, "tags": False, "wrap": gen.choice([1, 2, 3, 5]) if fname == "fastaw" else None}
+                    # SAM records with optional fields: in the files without a final newline (the last record's tags end the file) and in every second other file
+                    style = {"eol": eol, "final_newline": fnl, "tags": fname == "sam" and (not fnl or j % 2 == 1), "wrap": gen.choice([1, 2, 3, 5]) if fname == "fastaw" else None}
                     if fname == "bed6":
                         style.update(score_mode=gen.choice(["int", "mixed"]), score_small=gen.random() < 0.5)
                     small.append((fname, n, style, gen.randrange(2 ** 30)))
     for fi, (fname, n, style, s) in enumerate(small):
         fc = make_file(fname, random.Random(s), n, "tiny", style)
+        for extra_try in range(1, 8):
+            if not (fname == "sam" and style["tags"] and not fc["records"][-1]["values"]["extra"]):
+                break
+            fc = make_file(fname, random.Random(s + extra_try), n, "tiny", style)      # the optional fields of the LAST record are the ones that end the file
         size = len(fc["data"])
         D = size - len(fc["header"])
         # the header is consumed line by line before chunking starts: every k up to the data section's size + 2, plus the sizes around the whole file
